@@ -249,12 +249,15 @@ Lemma pubkey_key_info : forall c h top es ep rnd seed kl p g,
   let nbytes := bytes_of_bits (gke_priv_len ep) in
   let y := OS2IP (kdf c h seed KDS_SERVICE (lit16z "DH") nbytes) in let x := OS2IP (rnd nbytes) in
   wfb (kdf c h seed KDS_SERVICE (lit16z "DH") nbytes) = true -> wfb (rnd nbytes) = true ->
+  (* since the repair of D16 new_kek checks the group key blob against the envelope's DH parameters and refuses a degenerate
+     group public value *)
+  Kek.dh_group_params (gke_secret_params ep) kl p g -> dh_pub_valid p (dh_public p g y) ->
   gke_l2_key ep = concat (GkdiStructs.ffk_field_list {| ffk_key_length := kl; ffk_field_order := p; ffk_generator := g; ffk_public_key := dh_public p g y |}) ->
   exists kek kid, new_kek c rnd ep = Ok (kek, kid) /\
     kid_key_info kid = concat (GkdiStructs.ffk_field_list {| ffk_key_length := kl; ffk_field_order := p; ffk_generator := g; ffk_public_key := dh_public p g x |}).
 Proof.
-  intros c h top es ep rnd seed kl p g H1 H2 H3 H4 H5 H6 H7 H8 H9 H10 H11 H12 H13 H14 H15 H16 H17 H18 H19 nbytes y x H20 H21 H22.
-  destruct (Kek.agree_dh c h top es ep rnd seed kl p g H1 H2 H3 H4 H5 H6 H7 H8 H9 H10 H11 H12 H13 H14 H15 H16 H17 H18 H19 H20 H21 H22) as (kid & E & K & _).
+  intros c h top es ep rnd seed kl p g H1 H2 H3 H4 H5 H6 H7 H8 H9 H10 H11 H12 H13 H14 H15 H16 H17 H18 H19 nbytes y x H20 H21 Gp Vy H22.
+  destruct (Kek.new_kek_dh c h ep rnd seed kl p g H2 H4 H8 H10 H16 H17 H18 H19 Gp H21 Vy H22) as (kid & E & K).
   eauto.
 Qed.
 
